@@ -64,6 +64,9 @@ TEMPLATES = {
               lambda c, kw: _wrap_change(tmpl.star(c, 5, kw["lig"], "TBP", kw["order"], _par("TBP", kw["par"])), kw["chg"])),
     "star6": ({"lig": (0, 5), "order": (0, 720), "par": (0, 3), "chg": (0, 4)}, [],
               lambda c, kw: _wrap_change(tmpl.star(c, 6, kw["lig"], "Oct", kw["order"], _par("Oct", kw["par"])), kw["chg"])),
+    # centre of degree k without descriptor (colour refinement enumerates every ordering of its neighbours)
+    "bare": ({"k": (1, 9), "lig": (0, 3)}, [],
+             lambda c, kw: tmpl.star(c, kw["k"], kw["lig"], None, 0, None)),
     "lonepair": ({"lig": (0, 5), "order": (0, 24), "par": (0, 3), "chg": (0, 4)}, [],
                  lambda c, kw: _wrap_change(tmpl.lonepair(c, kw["lig"], kw["order"], _par("Tet", kw["par"])), kw["chg"])),
     "dbond": ({"sub": (0, 6), "kind": (0, 2), "order": (0, 48), "par": (0, 3), "chg": (0, 4)}, [],
